@@ -259,6 +259,20 @@ func (fx *FnExec) resolveMod(env *Env, text string) ([]modTarget, bool, error) {
 		if err != nil {
 			return nil, false, err
 		}
+		if v.T != nil && isInterface(v.T) && len(v.L) == 2 {
+			// *x for an interface value x: the location its (statically known) pointer payload designates;
+			// with an unknown dynamic type the callee may write anywhere
+			var concrete types.Type
+			for _, id := range fx.e.tt.sortedIds() {
+				if v.L[0] == intLit(int64(id)) {
+					concrete = fx.e.tt.types[id-1]
+				}
+			}
+			if concrete == nil || !isPointer(concrete) {
+				return nil, true, nil
+			}
+			v = Val{T: concrete, L: []string{v.L[1]}}
+		}
 		if v.T == nil || !isPointer(v.T) || v.Loc != nil {
 			return nil, false, fmt.Errorf("modifies %s: not a plain pointer", text)
 		}
